@@ -46,10 +46,12 @@ PROPS['C11'] = {
     'level': 'proof',
     'verus': [{'unit': 'table', 'fns': ['ClaimTable::lookup', 'ClaimTable::housekeep', 'ClaimTable::cache', 'ClaimTable::new', 'lemma_filter.*']}],
     'kani': {
-        'files': {'src/types.rs': ['kani/types.rs']},
+        'files': {'src/types.rs': ['kani/types.rs'], 'src/cloud.rs': ['kani/cloudblocks.rs.in']},
         'harnesses': [
             K('types::__verif_types::', 'range_matches_is_prefix_match', 'Range::matches == same length and first prefix_len bits agree (false if prefix_len > 8*len), bit-by-bit reference, every base/address/length 0..=16/prefix 0..=255', fns=['types::Range::matches']),
             K('types::__verif_types::', 'address_eq_is_prefix_equality', 'Address::eq == same length and same first len bytes', fns=['types::Address::eq']),
+            K('cloud::__verif_cloudblocks::', 'mode_table_matches_documentation', 'unknown destinations: broadcast flag false exactly for router (and normal/tun), true for switch and hub', fns=['cloud::GenericCloud::new (block: mode table)']),
+            K('cloud::__verif_cloudblocks::', 'table_gets_switch_and_peer_timeouts', 'cached decisions live for the switch timeout, claims for the peer timeout', fns=['cloud::GenericCloud::new (block: ClaimTable::new arguments)']),
         ],
     },
     'trusted': [
@@ -213,14 +215,47 @@ PROPS['C12'] = {
     ],
 }
 
+PROPS['C08'] = {
+    'level': 'proof',
+    'level_text': 'Proof for the per-peer receive path: MsgBuffer, CryptoCore::decrypt/encrypt (buffer geometry) and PeerCrypto::{handle_message, decrypt_message, encrypt_message, send_message} verbatim in Verus: for EVERY well-formed buffer (any length incl. 0, any content) and every state of the peer object every callee precondition (index bounds, arithmetic, assert!) is established, i.e. no panic. The variable-length decoders behind the handshake marker (InitMsg::read_from, NodeInfo::decode, RotationMessage) are NOT decided.',
+    'verus': [{'unit': 'buffer'}],
+    'native_search': {'buffer::CryptoCore::decrypt': {'file': 'native/core_short_datagram.rs', 'attach': 'src/crypto/core.rs', 'test': 'decrypt_is_total_on_short_datagrams'}},
+    'trusted': [
+        'env (NOT decided): PeerCrypto::handle_init_message -> InitState::handle_init -> InitMsg::read_from is assumed total on every well-formed buffer (150-line TLV parser over Cursor/SmallVec; neither back end reaches it)',
+        'env: PeerCrypto::handle_rotate_message / RotationMessage parsing is reached only after the AEAD opened the datagram, i.e. not by an outsider',
+        'the header/AEAD blocks inside CryptoCore::decrypt/encrypt are replaced by stand-ins here (rule B2); they are under contract as blocks in the Kani harnesses coreblocks::{decrypt,encrypt}_block_contract',
+        'ring AEAD verdict is an oracle',
+    ],
+    'not_decided': [
+        'totality of InitMsg::read_from, NodeInfo::decode, RotationMessage::read_from on arbitrary bytes (handshake-marker datagrams reach InitMsg::read_from before any signature check)',
+        'node level dispatch (GenericCloud::handle_net_message frame) - see unit cloud when claimed',
+        'observation (outside the quantifier of C08, sender holds a trusted key): a sealed datagram with EMPTY plaintext makes handle_message call take_prefix on an empty buffer, leaving start = end + 1; the next MsgBuffer::len()/message() underflows/panics',
+    ],
+}
+
+CLB = 'cloud::__verif_cloudblocks::'
+PROPS['C13'] = {
+    'level': 'proof',
+    'level_text': 'Proof of the three per-function ingredients of switch learning: (1) Frame::parse yields the per-VLAN key (8-byte vid||mac for a 12-bit VLAN id != 0, 6-byte mac for untagged AND priority-tagged frames, PCP/DEI and nested tags ignored) for every frame (Kani, full content); (2) the learned entry is ClaimTable::cache (last writer wins, expires after the switch timeout, removed by housekeep when expired and by remove_claims when the peer goes) (Verus); (3) the mode table: learning exactly for switch (and normal/tap), never for hub/router (Kani block). The call site `if self.learning { self.table.cache(src, peer) }` is under contract in unit cloud (C10).',
+    'verus': [{'unit': 'table', 'fns': ['ClaimTable::cache', 'ClaimTable::housekeep', 'ClaimTable::remove_claims', 'ClaimTable::lookup', 'ClaimTable::new', 'lemma_.*']}],
+    'kani': {
+        'files': {'src/payload.rs': ['kani/payload.rs'], 'src/cloud.rs': ['kani/cloudblocks.rs.in']},
+        'harnesses': [
+            K(PAY, 'frame_parse_len_le_1600', 'Frame::parse: learning key = 12-bit VLAN id || MAC; VLAN 0 and untagged give the bare MAC; all 65536 TCI values; nested tags ignored', fns=['payload::Frame::parse']),
+            K(CLB, 'mode_table_matches_documentation', 'GenericCloud::new mode block: learning iff switch or normal/tap; hub and router never learn', fns=['cloud::GenericCloud::new (block: mode table)']),
+            K(CLB, 'table_gets_switch_and_peer_timeouts', 'GenericCloud::new: the table is built with (switch_timeout, peer_timeout)', fns=['cloud::GenericCloud::new (block: ClaimTable::new arguments)']),
+        ],
+    },
+    'trusted': TABLE_TRUSTED,
+    'not_decided': ['multi-node histories (frames interleaved with time steps and disconnects across 3-4 nodes): only the per-operation contracts are proved; their composition over histories is by induction on the table view, not machine-checked at node level'],
+}
+
 NOT_APPLICABLE = {
     'C01': 'needs Ed25519 unforgeability plus InitMsg::read_from / InitState::handle_init, which neither back end reaches (150-line TLV parser over Cursor/SmallVec; ring key objects); no contract within reach expresses it',
     'C05': 'all-schedules agreement and recovery of two retransmitting state machines plus a liveness bound: a protocol-level joint invariant and liveness, outside per-function contracts',
     'C07': 'invariant over the product of two RotationStates, eight key slots and in-flight messages with key identity defined through ECDH; liveness clause; not decidable by per-function contracts within reach',
-    'C08': 'pending',
     'C09': 'whole-history property of 2-3 nodes over hundreds of seconds; no function-level contract expresses it without being stronger than the property',
     'C10': 'pending',
-    'C13': 'pending',
     'C14': 'convergence of N nodes is liveness over multi-node histories; the safety half lives in handle_init/connect (out of reach of both back ends)',
     'C15': 'pending',
     'C17': 'pending',
